@@ -243,7 +243,7 @@ PROPS = {
     "C18": {"modules": ["Netconan.Props.C18", "Netconan.Props.C18Data"], "scopes": [jun_checks.scope],
             "checker_cmd": "cd lean && lake build Netconan.Props.C18 && lake env lean <#print axioms audit>", "rule": JUN_RULE,
             "assumptions": ["FAMILY/ENCODING/EXTRA/_fixedc tables are regenerated from the live module on every run; the functions are modelled by hand and tied by correspondence"]},
-    "C06": {"modules": ["Netconan.Props.C06"], "scopes": [iptext_checks.scope, iptext_checks.io_scope, iptext_checks.long_line_scope, ip_checks.text_history_scope],
+    "C06": {"modules": ["Netconan.Props.C06"], "scopes": [iptext_checks.scope, iptext_checks.io_scope, iptext_checks.long_line_scope, ip_checks.text_history_scope, ip_scenarios.scenario_scope],
             "checker_cmd": "cd lean && lake build Netconan.Props.C06 && lake env lean <#print axioms audit>",
             "rule": "exhaustive strings up to length 4 (quick) / 5 (thorough) over the boundary alphabets '025.a /', '1f:g /', '1f:.% '; structured dotted "
                     "and colon-separated tokens with near-miss parts and delimiters; every h::l split shape; realistic multi-token lines; "
@@ -260,9 +260,9 @@ PROPS = {
             "assumptions": SECRET_ASSUME},
     "C10": text_prop("C10", [text_checks.words_scope, text_checks.hashseed_scope]),
     "C11": text_prop("C11", [text_checks.as_scope]),
-    "C12": text_prop("C12", [text_checks.pipeline_corr, text_checks.structure_scope, text_checks.order_scope, iptext_checks.long_line_scope]),
+    "C12": text_prop("C12", [text_checks.pipeline_corr, text_checks.structure_scope, text_checks.order_scope, iptext_checks.long_line_scope, files_checks.files_scope]),
     "C13": text_prop("C13", [text_checks.pipeline_corr, text_checks.determinism_scope, text_checks.hashseed_scope]),
-    "C14": text_prop("C14", [text_checks.pipeline_corr, text_checks.total_scope]),
+    "C14": text_prop("C14", [text_checks.pipeline_corr, text_checks.total_scope, ip_scenarios.scenario_scope]),
     "C15": text_prop("C15", [text_checks.pipeline_corr, text_checks.compose_scope]),
     "C16": {"modules": ["Netconan.Props.C16"], "scopes": [files_checks.files_scope],
             "checker_cmd": "cd lean && lake build Netconan.Props.C16 && lake env lean <#print axioms audit>",
